@@ -76,11 +76,18 @@ ARCH = """
 """
 
 
-def gen_map(rs, small=False):
-    """-> {"words": W, "entries": [entry...]}; entry kinds: mem, memu(default), fields, cnt, file(2 words), array(n words)"""
+def gen_map(rs, small=False, force_mem=None):
+    """-> {"words": W, "entries": [entry...]}; entry kinds: mem, memu(default), fields, cnt, file(2 words), array(n words)
+    force_mem = n: the map starts with a Memory of n words at offset 0 (declared Memory[0:4n])"""
     W = rs.choice([2, 3, 4, 5, 8] if small else [4, 5, 6, 8, 11, 12, 16])
+    if force_mem:
+        W = max(W, force_mem + 1)
     free = list(range(W))
     entries = []
+    if force_mem:
+        for i in range(force_mem):
+            free.remove(i)
+        entries.append({"kind": "memory", "word": 0, "n": force_mem, "mode": rs.choice(["IMMEDIATE", "IGNORE", "READBACK"]), "inline": rs.below(2) == 0, "noreset": False, "init": None, "decl": "slice", "unaligned": False})
     nreg = rs.range(2, min(W, 7))
     cls_id = [0]
     for _ in range(nreg):
@@ -282,8 +289,11 @@ def gen_interconnect(rs):
     slaves = []
     cursor = 0
     entries = []
+    # (half of the topologies: the first two slaves both start with a Memory at THEIR offset 0, of different sizes -- the
+    # same generic arguments except the end address)
+    forced = rs.sample([2, 4, 3], 2) if rs.below(2) else None
     for j in range(rs.range(2, 3)):
-        mj = gen_map(rs, small=True)
+        mj = gen_map(rs, small=True, force_mem=forced[j] if forced and j < 2 else None)
         size = 4
         while size < 4 * mj["words"]:
             size *= 2
